@@ -337,12 +337,10 @@ def check_edges(p: Project, r: Result):
     if init is None:
         raise AnalysisError('Edge.__init__ missing')
     # Edge.__init__ must raise when capacity is not a positive int
-    ok = False
-    for n in walk_no_nested(init.node):
-        if isinstance(n, ast.If) and any(isinstance(x, ast.Raise) for x in n.body):
-            from .common import guard_rejects
-            if guard_rejects(n.test, ('capacity', 'self.capacity'), bad=(0, -3, 2.5, None, '4'), good=(1, 7)):
-                ok = True
+    from .common import guards_reject
+    guards = [n.test for n in walk_no_nested(init.node) if isinstance(n, ast.If) and n.body and isinstance(n.body[-1], ast.Raise) and 'capacity' in ast.unparse(n.test)]
+    guards.sort(key=lambda t: (t.lineno, t.col_offset))
+    ok = bool(guards) and guards_reject(guards, ('capacity', 'self.capacity'), bad=(0, -3, 2.5, None, '4'), good=(1, 7))
     key = f'{init.key}::capacity-validation'
     if ok:
         r.ok('C01.O6', key, 'raises unless isinstance(capacity, int) and capacity > 0', src(init.module), init.node.lineno)
